@@ -244,6 +244,10 @@ class _FakeStdin:
         self.buffer = self._B(d)
 
 
+class _CliHang(BaseException):
+    pass
+
+
 def run_in_process(argv, stdin_bytes, pipe_rng=None):
     import auditok.cmdline as CL
 
@@ -253,12 +257,37 @@ def run_in_process(argv, stdin_bytes, pipe_rng=None):
     if alive:
         return {"inconclusive": f"other threads alive before main(): {alive}"}
     out, err = io.StringIO(), io.StringIO()
-    old_time, old_stdin = CL.time, sys.stdin
-    CL.time = types.SimpleNamespace(sleep=lambda s: _time.sleep(0.002))
+    old_time, old_stdin = getattr(CL, "time", None), sys.stdin
+    hang = {"n": 0, "blocked_samples": 0, "out_len": -1}
+
+    def fast_sleep(s):
+        # the tool's "sleep(1) until every worker has ended" loop, in logical time.  The verdict "never exits" is logical too:
+        # thousands of iterations (each a second of the tool's own time) during which every other thread sits in a wait and
+        # nothing is printed mean that the workers wait for a message nobody will send.
+        _time.sleep(0.002)
+        hang["n"] += 1
+        if hang["n"] >= 4000 and hang["n"] % 500 == 0:
+            frames = sys._current_frames()
+            others = [t for t in threading.enumerate() if t is not threading.current_thread()]
+            blocked = all(os.path.basename(frames[t.ident].f_code.co_filename) in ("threading.py", "queue.py") for t in others if t.ident in frames)
+            same = len(out.getvalue()) == hang["out_len"]
+            hang["out_len"] = len(out.getvalue())
+            hang["blocked_samples"] = hang["blocked_samples"] + 1 if (blocked and same and others) else 0
+            if hang["blocked_samples"] >= 3:
+                import traceback
+
+                hang["stacks"] = {t.name: "".join(traceback.format_stack(frames[t.ident])[-4:])[-600:] for t in others if t.ident in frames}
+                raise _CliHang()
+
+    if old_time is not None:
+        CL.time = types.SimpleNamespace(sleep=fast_sleep, **{k: getattr(_time, k) for k in ("time", "monotonic", "perf_counter") if hasattr(_time, k)})
+    old_sleep = getattr(CL, "sleep", None)
+    if old_sleep is _time.sleep:
+        CL.sleep = fast_sleep  # `from time import sleep`
     ps = None
     if stdin_bytes is not None and pipe_rng is not None:
         # a real pipe + BufferedReader + fileno, fed in small window-unaligned chunks (the feeder ends once all is read)
-        ps = PipeStdin(stdin_bytes, pipe_rng, max_chunk=997)
+        ps = PipeStdin(stdin_bytes, pipe_rng, max_chunk=997, feeder="process")
         sys.stdin = ps
     else:
         sys.stdin = _FakeStdin(stdin_bytes if stdin_bytes is not None else b"")
@@ -269,12 +298,23 @@ def run_in_process(argv, stdin_bytes, pipe_rng=None):
                 res["rc"] = CL.main(list(argv))
             except SystemExit as exc:
                 res["rc"] = ("SystemExit", exc.code)
+            except _CliHang:
+                res["rc"] = ("never-exits",)
+                res["hang"] = {"loop_iterations": hang["n"], "threads": hang.get("stacks")}
             except Exception as exc:
                 res["rc"] = ("exception", type(exc).__name__, repr(exc)[:200])
     finally:
-        CL.time, sys.stdin = old_time, old_stdin
+        sys.stdin = old_stdin
+        if old_time is not None:
+            CL.time = old_time
+        if old_sleep is _time.sleep:
+            CL.sleep = old_sleep
         if ps is not None:
             ps.close()
+    if "hang" in res:
+        res["stdout"], res["stderr"] = out.getvalue(), err.getvalue()
+        res["threads_left"] = [t.name for t in threading.enumerate() if t is not threading.current_thread()]
+        return res
     # give stray worker threads a moment; they must all be gone when main returns normally
     t_end = _time.monotonic() + 5
     while _time.monotonic() < t_end and len(threading.enumerate()) > 1:
@@ -496,10 +536,15 @@ def run_shard(ctx, upto=None):
             ctx.replay_info = {"shard": ctx.shard, "nshards": ctx.nshards, "seed": ctx.seed, "i": i}
             rec = make_recording(rng)
             argv, kw, meta = build_argv(rng, rec, tmp, i)
-            use_pipe = meta["kind"] == "stdin" and kw["max_read"] is None  # with -M the tool stops reading early: a feeder would stay blocked
+            use_pipe = meta["kind"] == "stdin"  # the producer is a process of its own: a tool that stops reading early (-M) leaves IT blocked
             res = run_in_process(argv, rec["data"] if meta["kind"] == "stdin" else None, rng if use_pipe else None)
             if use_pipe:
                 ctx.count("stdin_fed_through_a_real_pipe")
+            if "hang" in res:
+                ctx.case(("cli-hang", i), True)
+                ctx.violation("command-line-never-exits", {"case": {"argv": argv, "input": meta["kind"], "nbytes": len(rec["data"])}, "hang": res["hang"], "stdout": res["stdout"][:300]})
+                ctx.force_exit = True  # blocked worker threads cannot be removed from this process: report and leave
+                return
             check_cli(ctx, rec, argv, kw, meta, res, "in_process")
             for f in os.listdir(tmp):
                 p = os.path.join(tmp, f)
